@@ -59,11 +59,11 @@ CLAIMED = {
          "the decimal printing of the min/max rows is outside the model (bit-pattern tokens, compared by value; the byte-level comparison is skipped for components with NaN or zeros of both signs); the values of the built-in recipes are Cantera's (independent SolutionArray evaluation, 1e-9 relative), not modelled; the solution-array form of user recipes shares the skeleton and is covered by the built-in stream only.",
          "DESIGN.md section 3 C11"),
  'C17': ("Coq proof (ghost stripping keeps exactly the interior cells for every ghost width; the scan of a state file converts every box in file order; level theorem: for any layout of the state boxes the per-file results are mapped back to box order and the written level is well-formed; recorded min/max are true extrema) + byte-for-byte correspondence of the converted level directories + independent reader / taste with box coordinates",
-         "Props/C17.v: C17_interior, C17_minmax, C17_scan, C17_level_any_layout, C17_level_plain. The executable model Writers.Chk2plt.convert_level (state-file scan, ghost stripping, flooring table, gradp / I_R at recorded offsets, offset-sorted tasks mapped back to box order) is compared byte for byte with chk2plt's output on synthetic checkpoints (1-3 levels, 1-3 ghost cells, anisotropic shifted domains, independent layouts per data subset, all flag combinations, species from list or reference plotfile); the independent reader checks fields, levels, boxes, time, geometry, interior values, rescaled mass fractions, min/max; taste with box coordinates; the checkpoint tree is hashed before and after (incl. one checkpoint with a state FAB above 4 MiB per run).",
+         "Props/C17.v: C17_interior, C17_minmax, C17_scan, C17_level_any_layout, C17_level_plain, C17_level_directory. The executable model Writers.Chk2plt.convert_level (state-file scan, ghost stripping, flooring table, gradp / I_R at recorded offsets, offset-sorted tasks mapped back to box order) is compared byte for byte with chk2plt's output on synthetic checkpoints (1-3 levels, 1-3 ghost cells, anisotropic shifted domains, independent layouts per data subset, all flag combinations, species from list or reference plotfile); the independent reader checks fields, levels, boxes, time, geometry, interior values, rescaled mass fractions, min/max; taste with box coordinates; the checkpoint tree is hashed before and after (incl. one checkpoint with a state FAB above 4 MiB per run).",
          "partial: the checkpoint Header parse, dx = domain / grid, box bounds and the text writers are checked at property level only (not modelled); flooring division is numpy's (table); two defects repaired by fix: commits, see KNOWN_FINDINGS.txt.",
          "DESIGN.md section 3 C17"),
  'C14': ("Coq proof of the pipeline theorem with its hypotheses discharged for all three writers (C14_full_chain: every finite sequence of colander, combine and chef (user recipe) runs succeeds, equals the composed specifications, every intermediate directory is the image of a good plotfile - a cooked plotfile is good because the model's min/max stand-ins are float literals; validator accepts every output; strain-all and cook-then-combine identities) + hop-by-hop correspondence of the composed extracted models AND of the composed specifications with the real tool chain",
-         "Props/C14.v: C14_pipeline, C14_colander_chain, C14_strain_combine_chain, C14_chain_then_chef, C14_full_chain (chef anywhere in the chain), C14_full_outputs_accepted, C14_outputs_accepted, C14_strain_all_identity, C14_cook_combine. Pipelines over {colander, chef, combine with sibling, combine with ancestor} (all sequences of length <= 2 over the kinds, sampled up to 4) are run on generated plotfiles; after every hop the output is parsed by the independent reader and compared with the composed pure numpy operations, validated by taste (with and without box coordinates), compared byte for byte with the composition of the extracted Writers.* models, and the images of the composed pure operations of the theorem (Entry.e_full_chain on the abstract plotfile) are compared with those of the composed tool models - the instance of C14_full_chain for each chain; plus chains with a built-in Cantera recipe (cook keeping temp / Y(O2), combine back into the original).",
+         "Props/C14.v: C14_pipeline, C14_colander_chain, C14_strain_combine_chain, C14_chain_then_chef, C14_full_chain (chef anywhere in the chain), C14_full_outputs_accepted, C14_outputs_read_back / C14_outputs_iterate (what the reader returns on the outputs), C14_outputs_accepted, C14_strain_all_identity, C14_cook_combine. Pipelines over {colander, chef, combine with sibling, combine with ancestor} (all sequences of length <= 2 over the kinds, sampled up to 4) are run on generated plotfiles; after every hop the output is parsed by the independent reader and compared with the composed pure numpy operations, validated by taste (with and without box coordinates), compared byte for byte with the composition of the extracted Writers.* models, and the images of the composed pure operations of the theorem (Entry.e_full_chain on the abstract plotfile) are compared with those of the composed tool models - the instance of C14_full_chain for each chain; plus chains with a built-in Cantera recipe (cook keeping temp / Y(O2), combine back into the original).",
          "built-in (Cantera) recipes enter chains by correspondence only; 'good' (a Prop) is not evaluated on generated plotfiles: the image check pf_disk pf = directory on disk and the per-hop agreement stand for it; chk2plt as a source is covered by C17.",
          "DESIGN.md section 3 C14"),
  'C12': ("Coq proof (ordered map/imap pairing is independent of the execution order; file-system confluence of tasks touching disjoint files for every execution order; order-free keyed painting) + exhaustive task-order runs of every tool under a controlled pool with audited task file sets",
